@@ -278,7 +278,7 @@ def run(ctx, cases_override=None):
             d = op["dir"]
             r = math.sqrt(sum(t * t for t in s))
             h = 2.0 ** -17 * r
-            for sg, role in ((-1, "Em"), (1, "Ep"), (-2, "Em2"), (2, "Ep2")):
+            for sg, role in ((-1, "Em"), (1, "Ep"), (-2, "Em2"), (2, "Ep2"), (-0.5, "Emh"), (0.5, "Eph")):
                 t = list(s)
                 t[d] = s[d] - sg * h      # active unit advanced by sg*h: the separation shortens
                 o = dict(op)
@@ -328,18 +328,25 @@ def run(ctx, cases_override=None):
                              "separation: %r vs %r" % (op["dir"], main[0], pv)))
         # --- finite differences on the implementation's own energy
         if c["fam"] in ("ip", "lj", "dep"):
-            E = {r_: val(g[r_]) for r_ in ("Em", "Ep", "Em2", "Ep2")}
+            E = {r_: val(g[r_]) for r_ in ("Em", "Ep", "Em2", "Ep2", "Emh", "Eph")}
             if all(E.values()):
                 h = c["h"]
                 cp = fl(op, "c1") * fl(op, "c2") if c["fam"] == "ip" else 1.0
                 d1 = (E["Ep"][0] - E["Em"][0]) / (2 * h)
                 d2 = (E["Ep2"][0] - E["Em2"][0]) / (4 * h)
-                fd = (4 * d1 - d2) / 3 * sp      # Richardson: O(h^4)
+                dh = (E["Eph"][0] - E["Emh"][0]) / h
+                fd_h = (4 * d1 - d2) / 3 * sp      # Richardson: O(h^4)
+                fd = (4 * dh - d1) / 3 * sp        # the same at half the step; the difference estimates the truncation
                 # rounding error of an energy evaluation: relative to the magnitude of the terms that are subtracted
                 # (LJ: two inverse powers; displaced even power: r - r0), i.e. to max(|U|, r |U'|)
                 emax = max(max(abs(E[r_][0]) for r_ in E), energy_mag(c))
-                tol = 1e-8 * abs(fd) + 2.0 ** -50 * emax / h * sp * 8 + 1e-300
+                tol = 1e-8 * abs(fd) + 2.0 ** -50 * emax / h * sp * 16 + 2.0 * abs(fd - fd_h) + 1e-300
                 n_fd += 1
+                # conditioning of the derivative itself (cancellation in r - r0 next to the minimum)
+                fnc = mirror_der(op)
+                evc = K.evaluate(fnc, rng) if fnc else None
+                if evc is not None:
+                    tol += 4.0 * evc["tol"]
                 if abs(fd - main[0]) > tol + 1e-7 * abs(main[0]):
                     viol.append((c, g["main"], "derivative %r differs from the finite-difference rate of change of the "
                                  "implementation's energy %r (active unit advancing along the velocity)" % (main[0], fd)))
